@@ -1032,7 +1032,7 @@ func (fr *Frame) appendBuiltin(ins ssa.Instruction, s, t Val, st *State, reach T
 		for _, sc := range fr.v.leafComps(etOld) {
 			before := fr.readLeaf(st, lOld, sc.suffix, sc.sort)
 			after := fr.readLeaf(nst, lNew, sc.suffix, sc.sort)
-			c.assert(fmt.Sprintf("(forall ((%s Int)) (! (=> (and (<= 0 %s) (< %s %s)) (= %s %s)) :pattern (%s)))", iv, iv, iv, s.Len, after, before, after), "append keeps the old elements (lemma)")
+			c.assert(fmt.Sprintf("(forall ((%s Int)) (! (=> (and (<= 0 %s) (< %s %s)) (= %s %s)) :pattern (%s) :pattern (%s)))", iv, iv, iv, s.Len, after, before, after, before), "append keeps the old elements (lemma)")
 		}
 		if _, ok := constOf(n); !ok && t.K == KSlice {
 			c.fresh++
